@@ -7,7 +7,47 @@ from harness.props import c01
 cfg_of, cfg_id = c01.cfg_of, c01.cfg_id
 
 
+def reader_eval(case):
+    """an IPM file read with a masking configuration: every delivered record has its PAN masked; a record the caller's
+    configuration cannot describe (an element it lacks) is REFUSED — it is never delivered in another reading"""
+    import io
+    from cardutil import iso8583, mciipm
+    cfg = case['cfg']
+    codec = case['codec']
+    plain = copy.deepcopy(cfg)
+    for fc in plain.values():
+        fc.pop('field_processor', None)
+    msgs = [iu.dict_unwire(w) for w in case['msgs']]
+    recs = [iso8583.dumps(dict(m), encoding=codec, iso_config=plain) for m in msgs]
+    full = copy.deepcopy(plain)
+    full[str(case['extra_bit'])] = {'field_name': 'x', 'field_type': 'FIXED', 'field_length': 3}
+    odd = dict(msgs[0])
+    odd[f"DE{case['extra_bit']}"] = '978'
+    recs.insert(case['at'], iso8583.dumps(odd, encoding=codec, iso_config=full))
+    data = mciipm.vbs_list_to_bytes(recs, blocked=bool(case['b']))
+    got, exc = [], None
+    try:
+        for r in mciipm.IpmReader(io.BytesIO(data), encoding=codec, iso_config=cfg, blocked=bool(case['b'])):
+            got.append(r)
+    except Exception as ex:  # noqa
+        exc = ex
+    why = None
+    pans = [m['DE2'] for m in msgs]
+    if len(got) != case['at'] or not isinstance(exc, mciipm.MciIpmDataError):
+        why = (f"{len(got)} records delivered and {type(exc).__name__ if exc else 'no error'}: records 1..{case['at']} and "
+               f"then the library error for record {case['at'] + 1} (an element the configuration lacks) were expected")
+    for r in got:
+        for v in r.values():
+            if isinstance(v, str) and any(p in v for p in pans):
+                why = 'a delivered record holds a clear PAN although the reader was given a masking configuration'
+    obs = '|'.join(iu.dict_wire(r, sort=True) for r in got) + ' ' + ('err' if isinstance(exc, mciipm.MciIpmDataError) else
+                                                                  'eof' if exc is None else 'escape:' + type(exc).__name__)
+    return {'obs': [obs], 'violation': why, 'nontrivial': True, 'tags': ['reader-masking']}
+
+
 def impl_eval(case):
+    if case.get('k') == 'reader':
+        return reader_eval(case)
     from cardutil import iso8583
     cfg = case['cfg']
     plain = copy.deepcopy(cfg)
@@ -55,6 +95,8 @@ def impl_eval(case):
 
 
 def model_line(case):
+    if case.get('k') == 'reader':
+        return None
     from cardutil import iso8583
     cid = cfg_id(case)
     plain = copy.deepcopy(case['cfg'])
@@ -100,5 +142,15 @@ def explore(run, tier):
             codec = rng.choice(['latin_1', 'cp500', 'cp037'])
             m, _ = iu.gen_message(rng, cfg, codec, with_pds=False)
             cases.append({'cfg': cfg, 'codec': codec, 'hex': rng.randrange(2), 'msg': iu.dict_wire(m), 'unique': False})
+    # reader level: a masking configuration that lacks an element one record uses
+    for i in range(8 if tier == 'quick' else 80):
+        codec = ['latin_1', 'cp500'][i % 2]
+        cfg = {'2': {'field_name': 'PAN', 'field_type': 'LLVAR', 'field_length': 0, 'field_processor': ['PAN', 'PAN-PREFIX'][i // 2 % 2]},
+               '3': {'field_name': 'proc', 'field_type': 'FIXED', 'field_length': 6},
+               '4': {'field_name': 'amt', 'field_type': 'FIXED', 'field_length': 12, 'field_python_type': 'int'}}
+        msgs = [{'MTI': '1240', 'DE2': iu.text(rng, codec, rng.randrange(13, 20), 'digits'), 'DE3': '000000', 'DE4': rng.randrange(10 ** 6)}
+                for _ in range(3)]
+        cases.append({'k': 'reader', 'cfg': cfg, 'codec': codec, 'b': i % 2, 'msgs': [iu.dict_wire(m) for m in msgs],
+                      'extra_bit': [49, 22, 24][i % 3], 'at': i % 3})
     run.exhaustive.append('PAN and PAN-PREFIX on every unprocessed variable-length element of the packaged configuration x every length 10..40')
     run.correspond(__name__, cases, use_model=run.use_model, chunk=150)
